@@ -69,8 +69,11 @@ class Tuple(ContainNestedFieldMixin, TypedField, metaclass=_CollectionMeta):
                     self.items.append(item())
                 else:
                     raise TypeError("Expected a Field class or instance")
-        elif isinstance(items, (Field,)) or Field in items.__mro__:
+        elif isinstance(items, (Field,)):
             self.items = [items]
+        elif Field in getattr(items, "__mro__", ()):
+            # a Field class (e.g. tuple[int] maps to Tuple(items=Integer)): instantiate it, as for a list of items
+            self.items = [items()]
         else:
             raise TypeError("Expected a list/tuple of Fields or a single Field")
         super().__init__(*args, **kwargs)
